@@ -836,6 +836,11 @@ func checkC21(env *kernel.Env) {
 			}
 			// failed: nothing may have changed
 			if wantErr == "" && !fired {
+				if len(m.idx) > 0 && !c21Safe(op) {
+					// (known finding: a column-moving change on a table with a secondary index
+					// may also be refused, the index addressing a position that is gone)
+					env.ClassPrefix = "schema-change-with-index/"
+				}
 				env.Fail("representable-change-succeeds", "valid-alter-refused:"+op.kind+":"+clsKind(cls), "%q failed (%v); every existing value is representable after the change\nschema: %s\nrows: %s", op.sql, r.Err, beforeDesc, before)
 				break
 			}
